@@ -25,9 +25,11 @@ from .values import (
     js_pow,
     norm_number,
     to_integer,
+    to_array_length,
+    to_index,
     JS_WHITESPACE,
 )
-from .errors import JSError, MemoryLimitError, TimeLimitError
+from .errors import JSError, JSRangeError, MemoryLimitError, TimeLimitError
 
 _FLOAT_PREFIX_RE = re.compile(
     r"[+-]?(?:Infinity|[0-9]+\.?[0-9]*(?:[eE][+-]?[0-9]+)?|\.[0-9]+(?:[eE][+-]?[0-9]+)?)"
@@ -471,8 +473,10 @@ class Context:
         array_prototype._prototype = self._object_prototype
 
         def array_constructor(*args):
-            if len(args) == 1 and isinstance(args[0], (int, float)):
-                arr = JSArray(int(args[0]))
+            if len(args) == 1 and isinstance(args[0], (int, float)) and not isinstance(args[0], bool):
+                length = to_array_length(args[0])
+                self._check_allocation(length * 8)
+                arr = JSArray(length)
             else:
                 arr = JSArray()
                 for arg in args:
@@ -1126,17 +1130,25 @@ class Context:
             if not args:
                 return array_class(0)
             arg = args[0]
-            if isinstance(arg, (int, float)):
+            if not isinstance(arg, JSObject):
                 # new Int32Array(length)
-                return array_class(int(arg))
+                length = to_index(arg, "typed array length")
+                self._check_allocation(length * 8)
+                return array_class(length)
             elif isinstance(arg, JSArrayBuffer):
                 # new Int32Array(buffer, byteOffset?, length?)
                 buffer = arg
-                byte_offset = int(args[1]) if len(args) > 1 else 0
+                byte_offset = to_index(args[1], "offset") if len(args) > 1 else 0
                 element_size = array_class._element_size
+                if byte_offset % element_size or byte_offset > buffer.byteLength:
+                    raise JSRangeError(
+                        f"Start offset of {name} should be a multiple of {element_size} within the buffer"
+                    )
 
-                if len(args) > 2:
-                    length = int(args[2])
+                if len(args) > 2 and args[2] is not UNDEFINED:
+                    length = to_index(args[2], "typed array length")
+                    if byte_offset + length * element_size > buffer.byteLength:
+                        raise JSRangeError(f"Invalid typed array length: {length}")
                 else:
                     length = (buffer.byteLength - byte_offset) // element_size
 
@@ -1181,7 +1193,8 @@ class Context:
         from .values import JSArrayBuffer
 
         def constructor_fn(*args):
-            length = int(args[0]) if args else 0
+            length = to_index(args[0], "array buffer length") if args else 0
+            self._check_allocation(length)
             return JSArrayBuffer(length)
 
         constructor = JSCallableObject(constructor_fn)
@@ -1217,6 +1230,11 @@ class Context:
                 raise JSError(f"EvalError: {str(e)}")
 
         return eval_fn
+
+    def _check_allocation(self, nbytes: int) -> None:
+        """Refuse a single allocation that cannot fit in the memory limit before attempting it."""
+        if self.memory_limit and nbytes > self.memory_limit:
+            raise MemoryLimitError("Memory limit exceeded")
 
     def _run_nested(self, vm: VM, compiled) -> JSValue:
         """Run eval()/Function() code on its own VM, as part of the evaluation in progress:
